@@ -520,6 +520,30 @@ def r02_5_return(ctx):
     ctx.require_min("R02.5", 40)
 
 
+def r02_6_recursive_abi_probe(ctx):
+    ctx.rule("R02.6", "a recursive ABI-returning subroutine can be built: ReturnedValue.store_into probes the callee's declaration while that declaration is still being evaluated (store_into -> get_declaration_by_option -> evaluate -> the body -> store_into ...), so the probe ends in the interpreter's RecursionError; the handler around the probe must cover it and the probe result must be optional afterwards")
+    rv = ctx.model.find_class("ReturnedValue", "pyteal.ast.abi.type")
+    f = q.need(rv.methods.get("store_into"), "ReturnedValue.store_into vanished")
+    ctx.analysed(f.fq)
+    probes = q.calls_named(f.node, "get_declaration_by_option", into_nested=False)
+    if not probes:
+        ctx.ok("R02.6", "store_into:no-probe", "the declaration is no longer probed at call-construction time", f.where)
+        return
+    for c in probes:
+        tries = [a for a in q.ancestors(c) if isinstance(a, ast.Try) and any(c in list(ast.walk(b)) for b in a.body)]
+        covers = False
+        seen = []
+        for t in tries:
+            for h in t.handlers:
+                names = [None] if h.type is None else [u(x) for x in (h.type.elts if isinstance(h.type, ast.Tuple) else [h.type])]
+                seen += names
+                if any(n is None or n.split(".")[-1] in ("Exception", "BaseException", "RuntimeError", "RecursionError") for n in names):
+                    # the handler must not re-raise
+                    covers = covers or not any(isinstance(x, ast.Raise) for x in ast.walk(h))
+        ctx.check(covers, "R02.6", "store_into:probe-handler", f"the probe `{u(c)}` is guarded by handlers for {seen or 'nothing'}; for a recursive subroutine it fails with RecursionError, which must be absorbed here (otherwise no recursive ABI subroutine with an output can be built)", f"{f.module.rel}:{c.lineno}", fact={"handlers": seen})
+    ctx.require_min("R02.6", 1)
+
+
 def run(ctx):  # noqa: F811
     r02_3_spill(ctx)
     r02_2_convention(ctx)
@@ -529,6 +553,7 @@ def run(ctx):  # noqa: F811
 
     _c03b.r03_1b_slot_classes(ctx)  # which slots are a routine's own (spilled around re-entrant calls) and which are shared (never spilled)
     r02_5_return(ctx)
+    r02_6_recursive_abi_probe(ctx)
     return (
         "Bounded partial evaluation of the spill/restore builder pushed through an abstract stack machine (all strategies x arities x caller/callee kinds); "
         "abstract evaluation of SubroutineEval.evaluate/__proto over parameter-kind shapes in both conventions (argument binding, frame indices, proto, ABI output cell, deferred load); "
